@@ -77,7 +77,9 @@ Inductive qmode :=
   | QSecure      (* _secure_query, also for admins *)
   | QAdmin       (* model_query if ctx.is_admin else _secure_query; no `insecure` parameter exposed *)
   | QAdminArg    (* same, and the public function lets its caller pass insecure=True *)
-  | QInsecure.   (* b.model_query / session.query: no tenancy filter *)
+  | QInsecure    (* b.model_query / session.query: no tenancy filter *)
+  | QOwn         (* _secure_query further restricted to project_id == caller (also for admins) *)
+  | QOwnAdmin.   (* model_query for admin contexts, otherwise restricted to project_id == caller *)
 
 Inductive sel :=
   | SelId            (* id == identifier *)
@@ -129,6 +131,8 @@ Definition q_visible (q : qmode) (d : db) (c : ctx) (a : args) (r : res) : bool 
   | QAdmin => c_admin c || visible d c r
   | QAdminArg => c_admin c || a_insecure a || visible d c r
   | QInsecure => true
+  | QOwn => (r_owner r =? c_project c)
+  | QOwnAdmin => c_admin c || (r_owner r =? c_project c)
   end.
 
 Definition ns_is (o : option nat) (r : res) : bool :=
